@@ -204,8 +204,22 @@ theorem sanitizeCss_ok (cfg : Cfg) (s : Str) : ∃ r, sanitizeCss cfg s = .ok r 
 
 /-! ### the filter -/
 
+theorem stripRefsFix_ok (f : Nat) : ∀ s, ∃ r, stripRefsFix f s = .ok r := by
+  induction f with
+  | zero => intro s; exact ⟨s, rfl⟩
+  | succ f ih =>
+    intro s
+    obtain ⟨t, ht⟩ := stripentities_ok s
+    unfold stripRefsFix
+    simp only [ht, ok_bind]
+    by_cases h : t = s
+    · simp [h]
+    · simp only [h, ↓reduceIte]; exact ih t
+
+theorem stripRefs_ok (s : Str) : ∃ r, stripRefs s = .ok r := stripRefsFix_ok _ s
+
 theorem sanAttr_ok (cfg : Cfg) (a : QName × Str) : ∃ r, sanAttr cfg a = .ok r := by
-  obtain ⟨v, hv⟩ := stripentities_ok a.2
+  obtain ⟨v, hv⟩ := stripRefs_ok a.2
   unfold sanAttr
   simp only [hv, ok_bind]
   by_cases h1 : cfg.safeAttrs.contains a.1.text = true
@@ -216,7 +230,11 @@ theorem sanAttr_ok (cfg : Cfg) (a : QName × Str) : ∃ r, sanAttr cfg a = .ok r
       by_cases h3 : (a.1.text == styleWord) = true
       · simp only [h3, ↓reduceIte]
         obtain ⟨d, hd⟩ := sanitizeCss_ok cfg v
-        simp [hd]
+        obtain ⟨bk, hbk⟩ := stripentities_ok (Genshi.Str.join declSep d)
+        simp only [hd, ok_bind]
+        by_cases he : d.isEmpty = true
+        · simp only [he, ↓reduceIte]; exact ⟨_, rfl⟩
+        · simp only [he, Bool.false_eq_true, ↓reduceIte, hbk, ok_bind]; exact ⟨_, rfl⟩
       · simp only [h3, Bool.false_eq_true, ↓reduceIte]; exact ⟨_, rfl⟩
   · simp only [h1, Bool.not_false, ↓reduceIte]; exact ⟨_, rfl⟩
 
@@ -246,6 +264,10 @@ theorem step_ok (cfg : Cfg) (st : St) (e : Event) : ∃ r, step cfg st e = .ok r
     cases hw : st.waiting with
     | some w => simp only; split <;> exact ⟨_, rfl⟩
     | none => exact ⟨_, rfl⟩
+  | pi t d =>
+    by_cases hgt : (List.contains t '>' || List.contains d '>') = true
+    · exact ⟨_, by simp only [step, hgt, ↓reduceIte]; rfl⟩
+    · exact ⟨_, by simp only [step, hgt, Bool.false_eq_true, ↓reduceIte]; rfl⟩
   | _ => exact ⟨_, rfl⟩
 
 theorem sanitizeFrom_ok (cfg : Cfg) (st : St) (s : Stream) : ∃ o, sanitizeFrom cfg st s = .ok o := by
